@@ -71,7 +71,7 @@ GEN_TRUST = ["rassemble-go and regexp/syntax are not modelled: rassemble.Join is
 PROPS["C01"] = {
     "suites": ["passes", "generate"],
     "trusted": GEN_TRUST,
-    "level_text": "Kernel-checked soundness theorem of a derivative-based equivalence/inclusion checker for regular expressions with begin/end-of-text assertions (for all expressions, all contexts, all subject strings over the compared alphabet); kernel-checked structure theorems about a Gallina transcription of the whole generate pipeline (parser, include handling, definition expansion, Assemble/CmdLine processors, processor stack, complete, the six string passes) with rassemble.Join as an oracle: every alternation is grouped before concatenation, block results have one of four shapes, the final text is the sorted flag prefix plus printable text; the single-pending-line case is refuted by a model witness that replays on the binary (known finding). Tied by pins on all literals/patterns of the modelled functions, by function-level differential runs of every pass and by end-to-end runs of generated programs through the binary and the model (byte equality of stdout, error class). Per generated program the proved-sound checker decides language equality between the real output and the program's plain reading for ALL subject strings (translation validation).",
+    "level_text": "Kernel-checked soundness theorem of a derivative-based equivalence/inclusion checker for regular expressions with begin/end-of-text assertions (for all expressions, all contexts, all subject strings over the compared alphabet); kernel-checked structure theorems about a Gallina transcription of the whole generate pipeline (parser, include handling, definition expansion, Assemble/CmdLine processors, processor stack, complete, the six string passes) with rassemble.Join as an oracle: every alternation is grouped before concatenation, block results have one of four shapes, the final text is the sorted flag prefix plus printable text; the single-pending-line case is refuted by a model witness that replays on the binary (known finding); the space-range defect of includeVerticalTabInSpaceClass found by the equivalence oracle is repaired in /repo (fix: df79445). Tied by pins on all literals/patterns of the modelled functions, by function-level differential runs of every pass and by end-to-end runs of generated programs through the binary and the model (byte equality of stdout, error class). Per generated program the proved-sound checker decides language equality between the real output and the program's plain reading for ALL subject strings (translation validation).",
     "level_note": "Trusted: Coq kernel, translator, extraction, harness generators, Go's regexp/syntax as the definition of RE2 syntax. The optimiser (rassemble-go) is not modelled: that its results preserve the language is decided per generated program by the verified checker, not proved for all programs. Out-of-fuel verdicts of the checker are counted as no verdict. Programs: <= 14 items, depth <= 3.",
     "assumptions": ["the alphabet compared excludes the vertical tab, as the property prescribes", "entries contain no inline flag groups and no word boundaries"],
 }
@@ -85,7 +85,7 @@ PROPS["C02"] = {
 PROPS["C03"] = {
     "suites": ["expand_defs", "replace_suffixes", "fuzz_generate", "generate", "generate_defs"],
     "trusted": GEN_TRUST,
-    "level_text": "Go map iteration is an explicit order argument of the model. Kernel-checked theorems for all orders: line classification is order-independent for every line at most one pattern claims; suffix replacement is order-independent for non-interfering pair lists; the include-except sort undoes any iteration order of the line map; the flag prefix is sorted; a run does not read process state left by an earlier run. The parts the code violates (a line two patterns claim, chained replacement pairs) are refuted by model witnesses that replay on the binary (known findings). Tied by pins and by differential runs in which the Go result must lie in the model's result set over all orders; every generated program is additionally executed three times in fresh processes (stdin and file path) and all outputs must be equal.",
+    "level_text": "Go map iteration is an explicit order argument of the model. Kernel-checked theorems for all orders: every line is claimed by at most one of the seven directive patterns (proved from the matchers; holds since IncludeRegex is anchored, a genuine defect repaired by fix: 597d59c), hence line classification is the same for every iteration order; suffix replacement is order-independent for non-interfering pair lists; the include-except sort undoes any iteration order of the line map; the flag prefix is sorted; a run does not read process state left by an earlier run. The part the code violates (chained replacement pairs) is refuted by a model witness that replays on the binary (known finding); cyclic definitions are a further recorded finding. Tied by pins and by differential runs in which the Go result must lie in the model's result set over all orders; every generated program is additionally executed three times in fresh processes (stdin and file path) and all outputs must be equal.",
     "level_note": "Trusted as C01. Schedules are proved for the modelled map loops only; other runtime sources of nondeterminism are sampled by repeated fresh executions. Order independence of definition expansion is decided per generated case (model result set over all 576 order pairs), not yet by a theorem.",
     "assumptions": ["as C01"],
 }
@@ -99,7 +99,7 @@ PROPS["C04"] = {
 PROPS["C19"] = {
     "suites": ["passes", "generate", "fuzz_generate"],
     "trusted": GEN_TRUST,
-    "level_text": "Every unchecked index/slice of the string passes is a Crash outcome of the model, the unbounded for-loop is fuelled. Kernel-checked theorems: the flag-group loop terminates on every input (each removal strictly shortens the text, fuel never exhausted), the group scan returns positions inside the text; 'never crashes' is refuted by the model witness the property itself names (escaped parenthesis followed by ?i:), which replays on the binary (known finding). Tied by pins and by differential runs of every pass incl. crash behaviour (Go panic <-> model Crash) on regex-like and hostile texts; token-level fuzzing of the binary (stdin and include files) with a timeout looks for runtime errors and hangs.",
+    "level_text": "Every unchecked index/slice of the string passes is a Crash outcome of the model, the unbounded for-loop is fuelled. Kernel-checked theorems: the flag-group loop terminates on every input (each removal strictly shortens the text, fuel never exhausted), the group scan returns positions inside the text; the case the property itself names (escaped parenthesis followed by ?i:) was a genuine index-out-of-range defect found by this check and is repaired in /repo (fix: 818337f): the model now proves it is treated as text; an unbalanced flag group (never printed by the optimiser) remains the one modelled crash. Tied by pins and by differential runs of every pass incl. crash behaviour (Go panic <-> model Crash) on regex-like and hostile texts; token-level fuzzing of the binary (stdin and include files) with a timeout looks for runtime errors and hangs.",
     "level_note": "Trusted as C01. Panics inside rassemble-go / regexp/syntax / yaml are outside the model; only the fuzz run looks for them. Include cycles end with a loud failure (file-descriptor exhaustion), observed only.",
     "assumptions": ["inputs up to 4 KiB in the fuzz run"],
 }
